@@ -2,7 +2,7 @@
    payload conventions: order = list of classes (lists of N); profile = list of orders (instance.orders);
    alts / axis / D = list of N; V = list of indices into the profile; k = int. *)
 From Coq Require Import List ZArith NArith String.
-From PrefVerif Require Import Lib.Val Model.SP Model.Deletion Model.ILPEnc.
+From PrefVerif Require Import Lib.Val Model.SP Model.Deletion Model.ILPEnc Model.ELPDP.
 Import ListNotations.
 Open Scope string_scope.
 
@@ -60,7 +60,18 @@ Definition op_ilp_constraints (v : val) : val :=
   | _ => e_ilp (altdel_ilp alts p)
   end.
 
+(* ---- the mirrored dynamic programme (Model/ELPDP.v), votes = flat rankings ----
+   (alts votes) -> (axis removed) ;  (alts votes) -> result (list of axes) *)
+Definition d_votes (v : val) : list (list N) := dlist (dlist dN) v.
+Definition op_elp (v : val) : val :=
+  let r := k_alternative_deletion std_pair_first std_ext_order (d_alts (dnth 0 v)) (d_votes (dnth 1 v)) in
+  VL [elist eN (fst r); elist eN (snd r)].
+Definition op_elp_approx (v : val) : val :=
+  eresult (elist (elist eN))
+          (k_alt_partition_approx std_pair_first std_ext_order (d_alts (dnth 0 v)) (d_votes (dnth 1 v))).
+
 Definition ops : optable :=
   [ ("c12.min_alt", op_min_alt); ("c12.min_vot", op_min_vot); ("c12.cert_alt", op_cert_alt);
     ("c12.cert_vot", op_cert_vot); ("c12.core_alt", op_core_alt); ("c12.core_vot", op_core_vot);
-    ("c12.alt_ok", op_alt_ok); ("c12.vot_ok", op_vot_ok); ("c12.ilp_constraints", op_ilp_constraints) ].
+    ("c12.alt_ok", op_alt_ok); ("c12.vot_ok", op_vot_ok); ("c12.ilp_constraints", op_ilp_constraints);
+    ("c12.elp", op_elp); ("c12.elp_approx", op_elp_approx) ].
